@@ -30,11 +30,12 @@ from nverif.engine import Prop, Violation
 EPS = 2.0 ** -52
 # Rounding model: x +- h (+- h) costs at most two roundings, each <= ulp(|x| + w h)/2, and the
 # check's own p - x one more; measured worst over the 8 calibration seeds (quick) and seeds 0, 1
-# (thorough): symmetry defect 2.0 ulp, reach excess 1.0 unit.  Constants are >= 10x that; the
-# mutants move points by O(h), i.e. >= 1e6 units for every step the generator draws.
+# (thorough): symmetry defect 2.0 ulp, reach excess 2.0 units (the model allows 3: two roundings
+# in x + h e_i + h e_i and one in p - x).  Constants are >= 10x that; the
+# mutants move points by O(h) (h >= 1e-7 for all but the smallest drawn steps, unit ~ 1e-16 h + ulp x).
 SYM_ULP = 32.0         # central symmetry: |d + d'| <= SYM_ULP * ulp(|x| + |d|) per coordinate
-REACH_EPS = 16.0       # reach: |p - x| <= w h_max (1 + REACH_EPS eps) + REACH_ULP ulp(x)
-REACH_ULP = 16.0
+REACH_EPS = 32.0       # reach: |p - x| <= w h_max (1 + REACH_EPS eps) + REACH_ULP ulp(x)
+REACH_ULP = 32.0
 
 CLASSES = ('Derivative', 'Gradient', 'Jacobian', 'Hessdiag', 'Hessian')
 METHODS = ('central', 'forward', 'backward', 'complex', 'multicomplex')
